@@ -296,6 +296,10 @@ def inline_facts(j, baseline=None):
         return j, {"inlined": {}, "note": "no baseline: nothing inlined"}
     cands, graph, has_children = _candidates(j, baseline)
     if not cands:
+        if any(b.get("is_async") and b.get("def_kind") in ("Fn", "AssocFn") and b["path"] not in baseline and not b.get("reachable") for b in j["bodies"]):
+            j = copy.deepcopy(j)
+            a = _inline_async(j, baseline)
+            return j, {"inlined": {}, "async_helpers": a}
         return j, {"inlined": {}}
     j = copy.deepcopy(j)
     by_path = {b["path"]: b for b in j["bodies"]}
@@ -366,5 +370,192 @@ def inline_facts(j, baseline=None):
             rs.update(d["path"] for d in _descendants(j, p))
         j["bodies"] = [b for b in j["bodies"] if b["path"] not in rs]
         j["n_bodies"] = len(j["bodies"])
+    a = _inline_async(j, baseline)
     return j, {"inlined": {p: sorted(q for q, n in sites.items()) for p in []}, "helpers": sorted(done), "removed": sorted(removed),
-               "call_sites": sum(sites.values()), "callers": sorted(sites)}
+               "call_sites": sum(sites.values()), "callers": sorted(sites), "async_helpers": a}
+
+
+# ---------------------------------------------------------------------------------------------------------------------
+# new `async fn` helpers: `helper(args).await` in a caller coroutine
+
+def _single_def(body, local):
+    """The one statement / call terminator that defines `local` (None if there are several or none)."""
+    found = []
+    for blk in body["blocks"]:
+        if blk.get("cleanup"):
+            continue
+        for st in blk["stmts"]:
+            if st["k"] == "assign" and st["place"]["l"] == local and not st["place"]["p"]:
+                found.append(("stmt", blk, st))
+        t = blk["term"]
+        if t["k"] == "call" and t.get("dest") and t["dest"]["l"] == local and not t["dest"]["p"]:
+            found.append(("call", blk, t))
+    return found[0] if len(found) == 1 else None
+
+
+def _future_source(body, local, acands, depth=0):
+    """Follows the future polled at an await site back to the call that created it: through moves, `&mut`, `Pin::new_unchecked`
+    and `IntoFuture::into_future`. Returns the block of the call to a new async helper, or None."""
+    if depth > 10:
+        return None
+    d = _single_def(body, local)
+    if d is None:
+        return None
+    kind, blk, x = d
+    if kind == "stmt":
+        rv = x["rv"]
+        if rv["k"] == "use" and "place" in rv.get("op", {}):
+            return _future_source(body, rv["op"]["place"]["l"], acands, depth + 1)
+        if rv["k"] == "ref" and "place" in rv:
+            return _future_source(body, rv["place"]["l"], acands, depth + 1)
+        return None
+    cp = _callee_path(x)
+    if cp in acands:
+        return blk
+    fn = ((x.get("func") or {}).get("fn") or {}).get("path", "")
+    if fn in ("std::pin::Pin::<Ptr>::new_unchecked", "std::future::IntoFuture::into_future", "std::pin::Pin::<Ptr>::new") and x.get("args") \
+            and "place" in x["args"][0]:
+        return _future_source(body, x["args"][0]["place"]["l"], acands, depth + 1)
+    return None
+
+
+def _untuple_env(x, env_local):
+    """The captured arguments of the inlined coroutine are now the fields of a plain tuple: positional, not named."""
+    if isinstance(x, dict):
+        if x.get("l") == env_local and isinstance(x.get("p"), list) and x["p"] and x["p"][0].get("k") == "field":
+            x["p"][0] = dict(x["p"][0], name=None)
+        for v in x.values():
+            _untuple_env(v, env_local)
+    elif isinstance(x, list):
+        for v in x:
+            _untuple_env(v, env_local)
+
+
+def _inline_async(j, baseline):
+    """`new_async_helper(args).await`: the poll of the helper's future is replaced by the helper's coroutine body — its captured
+    arguments become a tuple built from the call's arguments, its `return` becomes `Poll::Ready(value)` at the poll's destination
+    followed by a jump to the Ready arm of the await, its own awaits (yields) stay where they are. Returns the helpers inlined."""
+    by_path = {b["path"]: b for b in j["bodies"]}
+    acands = {}
+    for b in j["bodies"]:
+        if b.get("def_kind") in ("Fn", "AssocFn") and b.get("is_async") and b["path"] not in baseline and not b.get("reachable") \
+                and not b.get("exported") and not b.get("impl_trait"):
+            co = None
+            for blk in b["blocks"]:
+                for st in blk["stmts"]:
+                    if st["k"] == "assign" and st["rv"].get("agg") == "coroutine":
+                        co = by_path.get(st["rv"]["path"])
+            if co is not None and len(co["blocks"]) <= MAX_BLOCKS and len(b["blocks"]) <= 3:
+                acands[b["path"]] = (b, co)
+    if not acands:
+        return []
+    renamed = _renamed(j, baseline)
+    for p in list(acands):
+        if p in renamed:
+            del acands[p]
+    done_any = set()
+    for _round in range(3):
+        changed = False
+        for caller in list(j["bodies"]):
+            if caller["path"] in {co["path"] for _, co in acands.values()} and False:
+                continue
+            i = 0
+            while i < len(caller["blocks"]):
+                blk = caller["blocks"][i]
+                t = blk["term"]
+                i += 1
+                if t["k"] != "call" or blk.get("cleanup"):
+                    continue
+                fnp = ((t.get("func") or {}).get("fn") or {}).get("path", "")
+                if not fnp.endswith("Future::poll") or not t.get("args") or "place" not in t["args"][0]:
+                    continue
+                src = _future_source(caller, t["args"][0]["place"]["l"], acands)
+                if src is None:
+                    continue
+                ht = src["term"]
+                hp = _callee_path(ht)
+                outer, co = acands[hp]
+                if co["path"] == caller["path"] or len(ht.get("args", [])) != outer.get("arg_count", 0):
+                    continue
+                # the Ready arm of the await
+                tgt = t.get("target")
+                ready = tgt
+                if isinstance(tgt, int):
+                    tb = caller["blocks"][tgt]
+                    if tb["term"]["k"] == "switch":
+                        for v, bb in tb["term"].get("targets", []):
+                            if v == 0:
+                                ready = bb
+                loff, boff = len(caller["locals"]), len(caller["blocks"])
+                desc = _descendants(j, co["path"])
+                cob = co
+                if desc:
+                    k = caller.get("_inl_n", 0)
+                    caller["_inl_n"] = k + 1
+                    mapping = {d["path"]: "%s::{inl#%d}%s" % (caller["path"], k, d["path"][len(co["path"]):]) for d in desc}
+                    for d in desc:
+                        nd = _rename(d, mapping)
+                        nd["parent"] = mapping.get(d.get("parent"), caller["path"])
+                        nd["inlined_from"] = hp
+                        j["bodies"].append(nd)
+                    cob = _rename(co, mapping)
+                for lc in cob["locals"]:
+                    nl = copy.deepcopy(lc)
+                    nl["i"] = lc["i"] + loff
+                    nl["user"] = False
+                    nl["inlined_from"] = hp
+                    caller["locals"].append(nl)
+                span = t.get("fn_span") or blk.get("tspan")
+                # the helper's captured arguments (evaluated at the call) and the resume argument
+                blk["stmts"].append({"k": "assign", "place": {"l": loff + 1, "p": []},
+                                     "rv": {"k": "agg", "agg": "tuple", "ops": [copy.deepcopy(a) for a in ht["args"]]}, "span": span, "inlined_arg": hp})
+                if len(t["args"]) > 1 and cob.get("arg_count", 0) >= 2:
+                    blk["stmts"].append({"k": "assign", "place": {"l": loff + 2, "p": []}, "rv": {"k": "use", "op": {"k": "copy", "place": {"l": 2, "p": []}}},
+                                         "span": span, "inlined_arg": hp})
+                dest, unwind = t.get("dest"), t.get("unwind")
+                blk["term"] = {"k": "goto", "target": boff, "inlined_call": hp}
+                for cb in cob["blocks"]:
+                    nb = {"i": cb["i"] + boff, "cleanup": cb.get("cleanup", False), "stmts": [_shift(s_, loff, boff) for s_ in cb["stmts"]],
+                          "term": _shift(cb["term"], loff, boff, in_term=True), "inlined_from": hp}
+                    _untuple_env(nb, loff + 1)
+                    if "tspan" in cb:
+                        nb["tspan"] = cb["tspan"]
+                    tk = nb["term"]["k"]
+                    if tk == "return":
+                        if dest is not None:
+                            nb["stmts"].append({"k": "assign", "place": copy.deepcopy(dest),
+                                                "rv": {"k": "agg", "agg": "adt", "path": "std::task::Poll", "variant": "Ready", "vi": 0, "targs": [],
+                                                       "fields": ["0"], "ops": [{"k": "move", "place": {"l": loff, "p": []}}]},
+                                                "span": cb.get("tspan") or span, "inlined_ret": hp})
+                        nb["term"] = {"k": "goto", "target": ready} if ready is not None else {"k": "unreachable"}
+                    elif tk in ("resume", "coroutinedrop"):
+                        nb["term"] = {"k": "goto", "target": unwind} if isinstance(unwind, int) else {"k": "unreachable"}
+                    caller["blocks"].append(nb)
+                # the creating call becomes a plain value (nothing of the helper runs before the first poll)
+                hd = ht.get("dest")
+                if hd is not None:
+                    src["stmts"].append({"k": "assign", "place": copy.deepcopy(hd),
+                                         "rv": {"k": "agg", "agg": "tuple", "ops": [copy.deepcopy(a) for a in ht["args"]]}, "span": ht.get("fn_span"), "inlined_arg": hp})
+                src["term"] = {"k": "goto", "target": ht.get("target"), "inlined_call": hp} if ht.get("target") is not None else {"k": "unreachable"}
+                done_any.add(hp)
+                changed = True
+        if not changed:
+            break
+    # helpers no longer called disappear (with their coroutine body and its closures)
+    still = set()
+    for b in j["bodies"]:
+        for blk in b["blocks"]:
+            if blk["term"]["k"] == "call":
+                cp = _callee_path(blk["term"])
+                if cp in acands:
+                    still.add(cp)
+    rs = set()
+    for hp in done_any - still:
+        outer, co = acands[hp]
+        rs.add(hp)
+        rs.add(co["path"])
+        rs.update(d["path"] for d in _descendants(j, co["path"]))
+    if rs:
+        j["bodies"] = [b for b in j["bodies"] if b["path"] not in rs]
+        j["n_bodies"] = len(j["bodies"])
+    return sorted(done_any)
